@@ -3,9 +3,10 @@ CONSTANTS
   MaxFuncs = 1
   MaxStmts = 1
   FuncKinds = {"func"}
-  BodyKinds = {"call", "cmd", "assign", "mcall1", "mcall2", "if", "for", "switch", "defer", "var", "lamexpr", "lamblk", "funclit", "fwd"}
+  BodyKinds = {"call", "cmd", "assign", "mcall1", "mcall2", "if", "for", "switch", "defer", "var", "lamexpr", "lamblk", "funclit", "fwd", "swtag", "swbare", "swbare2", "selsend"}
   StmtKinds = {"call", "fwd", "var"}
   GapSet = "g2"
   CaseGapSet = "g1"
   FileKind = "xgo"
-INVARIANTS TypeOK IdsOnce StmtStart Monotone DocAdjacent Balanced DeviationsNamed HelpersDeclared Export
+  RelBases = {"same"}
+INVARIANTS TypeOK IdsOnce StmtStart Monotone DocAdjacent Balanced DeviationsNamed HelpersDeclared RelCorrect Export
